@@ -255,6 +255,9 @@ func bytesRepeat(b byte, n int) []byte {
 	return out
 }
 
+// MaxMutatedBytes bounds the size growth of one mutation (size caps are exercised by dedicated cases, not by the mutator).
+const MaxMutatedBytes = 192 * 1024
+
 // MutateWire applies between 1 and 3 structure-aware mutations to a valid encoding and returns the result
 // and the names of the mutations. donor is another valid encoding used for splicing.
 func MutateWire(rng *rand.Rand, valid []byte, md protoreflect.MessageDescriptor, donor []byte) ([]byte, []string) {
@@ -379,7 +382,7 @@ func MutateWire(rng *rand.Rand, valid []byte, md protoreflect.MessageDescriptor,
 					w := protowire.AppendTag(nil, f.Num, protowire.BytesType)
 					w = protowire.AppendVarint(w, uint64(len(body)))
 					body = append(w, body...)
-					if len(body) > 1<<20 {
+					if len(body) > MaxMutatedBytes {
 						break
 					}
 				}
@@ -403,8 +406,15 @@ func MutateWire(rng *rand.Rand, valid []byte, md protoreflect.MessageDescriptor,
 		case 15: // unknown field
 			InjectUnknown(rng, owner)
 			names = append(names, "unknown-field")
-		case 16: // repeat a field many times (list growth)
+		case 16: // repeat a field many times (list growth); the encoded size stays below MaxMutatedBytes
 			cnt := []int{10, 1000, 5000}[rng.Intn(3)]
+			sz := len(f.Bytes) + 12
+			if f.Child != nil {
+				sz = len(f.Child.Encode()) + 12
+			}
+			if cnt*sz > MaxMutatedBytes {
+				cnt = MaxMutatedBytes / sz
+			}
 			for x := 0; x < cnt; x++ {
 				owner.Fields = append(owner.Fields, f)
 			}
@@ -432,5 +442,10 @@ func MutateWire(rng *rand.Rand, valid []byte, md protoreflect.MessageDescriptor,
 	if len(names) == 0 {
 		names = append(names, "identity")
 	}
-	return post(tree.Encode()), names
+	out := post(tree.Encode())
+	if len(out) > 4*MaxMutatedBytes {
+		out = out[:4*MaxMutatedBytes]
+		names = append(names, "size-capped")
+	}
+	return out, names
 }
